@@ -29,6 +29,10 @@ type scenBuilder struct {
 }
 
 func main() {
+	if len(os.Args) >= 2 && os.Args[1] == "fcchain" {
+		fcchainMain(os.Args[2:])
+		return
+	}
 	if len(os.Args) < 2 || os.Args[1] != "run" {
 		fmt.Fprintln(os.Stderr, "usage: gossip run -tier quick|thorough -seed S -out file [-scen a,b] [-topic x,y]")
 		os.Exit(2)
